@@ -2,7 +2,7 @@
 //! as the oracle.
 //!
 //! Usage:
-//!   witness <PROP> [--tier quick|thorough] [--seed N]
+//!   witness <PROP> [--tier quick|thorough] [--seed N] [--all]
 //!   witness <PROP> --case NAME --input name=HEX [name=HEX ...]
 //!
 //! Prints exactly one line of JSON on stdout.
@@ -62,21 +62,41 @@ fn exe() -> String {
         .unwrap_or_else(|| "/verif/cache/replay-target/release/witness".to_string())
 }
 
-fn report_found(prop: &str, f: &Found) -> ! {
+fn found_json(prop: &str, f: &Found) -> serde_json::Value {
     let rerun = format!("{} {} --case {} --input {}", exe(), prop, f.case, f.input.to_args());
-    finish(
-        json!({
-            "status": "found",
-            "property": prop,
-            "case": f.case,
-            "input": f.input.to_json(),
-            "expected": f.fail.expected,
-            "actual": f.fail.actual,
-            "detail": f.fail.detail,
-            "rerun_cmd": rerun.trim_end(),
-        }),
-        1,
-    )
+    json!({
+        "status": "found",
+        "property": prop,
+        "case": f.case,
+        "input": f.input.to_json(),
+        "expected": f.fail.expected,
+        "actual": f.fail.actual,
+        "detail": f.fail.detail,
+        "rerun_cmd": rerun.trim_end(),
+    })
+}
+
+fn report_found(prop: &str, f: &Found) -> ! {
+    finish(found_json(prop, f), 1)
+}
+
+/// `--all`: the first failure in the usual shape plus one entry per failing
+/// case name.
+fn report_all(prop: &str, ctx: &Ctx) -> ! {
+    let mut v = found_json(prop, &ctx.failures[0].0);
+    let list: Vec<serde_json::Value> = ctx
+        .failures
+        .iter()
+        .map(|(f, n)| {
+            let mut e = found_json(prop, f);
+            e["failures"] = json!(n);
+            e.as_object_mut().unwrap().remove("status");
+            e
+        })
+        .collect();
+    v["failing_cases"] = json!(list);
+    v["cases_run"] = json!(ctx.cases_run);
+    finish(v, 1)
 }
 
 fn main() {
@@ -88,6 +108,7 @@ fn main() {
     let mut tier = "quick".to_string();
     let mut seed = 1u64;
     let mut case: Option<String> = None;
+    let mut collect_all = false;
     let mut input = Input::new();
     let mut k = 1;
     while k < args.len() {
@@ -103,6 +124,7 @@ fn main() {
                     None => error("--seed needs an unsigned integer".into()),
                 };
             }
+            "--all" => collect_all = true,
             "--case" => {
                 k += 1;
                 case = args.get(k).cloned();
@@ -144,6 +166,8 @@ fn main() {
         cases_run: 0,
         registry,
         trace: std::env::var_os("WITNESS_TRACE").is_some(),
+        collect_all,
+        failures: Vec::new(),
     };
 
     // everything below runs under catch so that a harness error becomes a
@@ -166,6 +190,9 @@ fn main() {
             report_found(&prop, &found)
         }
         Ok((ctx, Ok(()))) => {
+            if !ctx.failures.is_empty() {
+                report_all(&prop, &ctx)
+            }
             if gen.is_none() {
                 finish(
                     json!({"status": "none", "property": prop, "cases_run": 0,
